@@ -25,6 +25,10 @@ pub struct Case {
     /// build everything, then verify the inputs (ignored when `clean`)
     #[serde(default)]
     pub verify: bool,
+    /// build only: a first run (same process, same inputs) takes place while one source does not
+    /// exist yet; its result is discarded, the source is created and the case proper runs
+    #[serde(default)]
+    pub late_source: Option<u16>,
 }
 
 // "ab" and "a/bc" are siblings whose names extend a neighbour's name (string-prefix confusion)
@@ -176,6 +180,7 @@ fn gen_case(c: &mut Choices) -> Case {
         clean: c.chance(1, 4),
         threads: 1 + c.below(6),
         verify: c.chance(1, 4),
+        late_source: if c.chance(1, 5) { Some(c.raw()) } else { None },
     }
 }
 
@@ -243,6 +248,17 @@ pub fn check(case: &Case, st: &mut Stats) -> Check {
             return viol("C11 clean-executed", "clean executed commands".into());
         }
         return Ok(());
+    }
+    if let (Some(sel), false) = (case.late_source, case.verify) {
+        let srcs = case.project.sources();
+        if !srcs.is_empty() {
+            let s = &srcs[(sel as usize * srcs.len()) >> 16];
+            let _ = std::fs::remove_file(su.sc.root.join(s));
+            let _ = runner::run_free(&su.sc.root, &opts);
+            su.sc.reset();
+            su.write(&case.project);
+            st.class("source_created_after_a_first_run");
+        }
     }
     let ex = model.build(&inputs, case.recursive);
     // verify: everything is built first, then the case's inputs are verified; the commands of
@@ -339,7 +355,7 @@ impl Prop for C11 {
         PropMeta {
             id: "C11",
             level: "exploration",
-            rule: "cases = generated directory trees (depth <=3) with 1-7 sources in the three name shapes (x.ext.txtpp, x.txtpp.ext, x.txtpp), include/after dependencies between them, and look-alike files (txtpp, .txtpp, a.txtpp.b.c, atxtpp, x.txtpp.bak.old ...) x input lists of 1-4 entries (directories as '.', './', relative, absolute; files by source or output name, './', absolute, through another directory and '..'; duplicates; missing targets; plain files without source) x recursive on/off x build, verify (after a full build) or clean, base directory different from the process working directory. Oracle: independent input-resolution model => expected processed set P (closed under dependencies for build). Build from an output-free tree: the set of created files equals {out(s) | s in P} and each source's marker command ran exactly once iff s in P; an input without source => error. Verify after a full build: succeeds, creates nothing, and the marker commands of exactly the sources in P run once more. Clean on a tree with every output present: the set of removed outputs equals the outputs of the named sources (not their dependencies), no command runs. Non-trivial = sources at depth >=2, aliased/duplicate/mixed inputs, or look-alikes present; distinct by hash.",
+            rule: "cases = generated directory trees (depth <=3) with 1-7 sources in the three name shapes (x.ext.txtpp, x.txtpp.ext, x.txtpp), include/after dependencies between them, and look-alike files (txtpp, .txtpp, a.txtpp.b.c, atxtpp, x.txtpp.bak.old ...) x input lists of 1-4 entries (directories as '.', './', relative, absolute; files by source or output name, './', absolute, through another directory and '..'; duplicates; missing targets; plain files without source) x recursive on/off x build (also as the second run of the process over the same paths, after a first run that took place before one of the sources existed), verify (after a full build) or clean, base directory different from the process working directory. Oracle: independent input-resolution model => expected processed set P (closed under dependencies for build). Build from an output-free tree: the set of created files equals {out(s) | s in P} and each source's marker command ran exactly once iff s in P; an input without source => error. Verify after a full build: succeeds, creates nothing, and the marker commands of exactly the sources in P run once more. Clean on a tree with every output present: the set of removed outputs equals the outputs of the named sources (not their dependencies), no command runs. Non-trivial = sources at depth >=2, aliased/duplicate/mixed inputs, or look-alikes present; distinct by hash.",
             assumptions: vec!["symlinks are not generated; the child-process entry with a relative base directory is covered by C17"],
             hang_is_violation: false,
             needs_cli: false,
